@@ -364,10 +364,18 @@ def _derived(cls, a, k):
         # the mirror-image value, built directly and used; the object handed to the adapter is its flipped()
         if cls.__name__ == "Plane":
             parent = cls(_np.array(o.reference_point), -_np.array(o.normal))
+            _warm(parent)
+            child = parent.flipped()
+        elif o.is_closed and len(o.v) >= 3 and _np.asarray(o.v).tobytes()[:1] < b"\x80":
+            # closed polylines, about half of them: the same loop stored from another start vertex, rolled back
+            k = 1 + len(o.v) // 2
+            parent = cls(_np.roll(_np.array(o.v), -k, axis=0), is_closed=True)
+            _warm(parent)
+            child = parent.rolled(len(o.v) - k)
         else:
             parent = cls(_np.array(o.v)[::-1].copy(), is_closed=o.is_closed)
-        _warm(parent)
-        child = parent.flipped()
+            _warm(parent)
+            child = parent.flipped()
     except Exception:
         return o
     same = (lambda x, y: _np.array_equal(_np.asarray(x), _np.asarray(y), equal_nan=True))
